@@ -222,6 +222,12 @@ class Evaluator:
                 raise Unsupported('%s: %s' % (ast.unparse(n), e))
         if isinstance(n.func, ast.Name) and n.func.id in self.env and isinstance(self.env[n.func.id], Native) and callable(self.env[n.func.id]):
             return self.env[n.func.id](*args, **kwargs)
+        if isinstance(n.func, ast.Name) and n.func.id in self.env and any(self.env[n.func.id] is t for t in (int, str, bytes, bytearray, bool, list, tuple)):
+            # a builtin type handed in as an argument (converter parameters): ValueError / TypeError are part of the behaviour
+            try:
+                return self.env[n.func.id](*args, **kwargs)
+            except TypeError as e:
+                raise Unsupported('%s: %s' % (ast.unparse(n), e))
         if isinstance(n.func, ast.Attribute):
             base = self.ev(n.func.value)
             for t, m in METHODS:
